@@ -31,6 +31,16 @@ fn spawn() -> Option<W> {
     match rx.recv_timeout(Duration::from_secs(120)) { Ok(l) if l == "READY" => Some(W { child, stdin, rx }), _ => { let _ = child.kill(); None } }
 }
 
+/// user + system CPU seconds of a live process (0 if it cannot be read)
+fn child_cpu_s(pid: u32) -> f64 {
+    let st = std::fs::read_to_string(format!("/proc/{}/stat", pid)).unwrap_or_default();
+    let after = st.rsplit(')').next().unwrap_or("");
+    let f: Vec<&str> = after.split_whitespace().collect();
+    // fields after the command: state(0) ... utime is field 14, stime 15 of the full line => indexes 11, 12 here
+    let t = |i: usize| f.get(i).and_then(|x| x.parse::<f64>().ok()).unwrap_or(0.0);
+    (t(11) + t(12)) / 100.0
+}
+
 pub const CPU_BASE_US: u64 = 250_000;
 pub const ALLOC_BASE: u64 = 256 * 1024;
 
@@ -53,12 +63,24 @@ pub fn sweep(env: &Env, root: &str, cases: &[Case]) {
                     env.ctx.state(&[root.as_bytes(), line.as_bytes()]);
                     env.ctx.step();
                     let sent = writeln!(w.stdin, "{}", line).and_then(|_| w.stdin.flush());
-                    let reply = if sent.is_ok() { w.rx.recv_timeout(Duration::from_secs(30)).ok() } else { None };
+                    // hang = the worker burnt >= 20 s of CPU on one case without answering (or stayed silent for 20 min);
+                    // a worker that is merely starved by other load on the machine is waited for
+                    let mut reply = None;
+                    if sent.is_ok() {
+                        let cpu0 = child_cpu_s(w.child.id());
+                        for _ in 0..40 {
+                            match w.rx.recv_timeout(Duration::from_secs(30)) {
+                                Ok(l) => { reply = Some(l); break; }
+                                Err(std::sync::mpsc::RecvTimeoutError::Disconnected) => break,
+                                Err(_) => { if matches!(w.child.try_wait(), Ok(Some(_))) || child_cpu_s(w.child.id()) - cpu0 >= 20.0 { break; } }
+                            }
+                        }
+                    }
                     let det = |extra: Value| env.case(root, json!({"case": c.case, "observed": extra}));
                     match reply.and_then(|l| serde_json::from_str::<Value>(&l).ok()) {
                         None => {
                             // died (abort, allocation failure, stack overflow, signal) or hung
-                            let status = w.child.try_wait().ok().flatten().map(|s| format!("{:?}", s)).unwrap_or_else(|| "no answer within 30 s (hang)".into());
+                            let status = w.child.try_wait().ok().flatten().map(|s| format!("{:?}", s)).unwrap_or_else(|| "no answer after 20 s of CPU time (hang)".into());
                             let _ = w.child.kill(); let _ = w.child.wait();
                             env.ctx.violation(&format!("C08:{}:abort-or-hang", c.class), &format!("worker did not return from {}: {}", c.case["f"], status), det(json!({"status": status})));
                             env.ctx.class("abort-or-hang");
